@@ -12,7 +12,7 @@ from ..pm import src
 from ..q import FA, attr_stores, call_name, compare_parts, conjuncts, const, guard_facts, ifs_on, is_self_attr, walk_no_nested
 from ..resolve import resolver
 
-TECHNIQUE = "R-PROV: the compared value is the recorded value (who-writes + canonical forms); R-DOM/R-ORDER on the loop guards, the iteration caps and the finalised short-circuits; R-SIB on the criterion definitions; call-graph check that no likelihood evaluation is reachable before the finalised guard; ESS family rule; extended-precision rule (shift degree); same-return rule"
+TECHNIQUE = "R-PROV: the compared value is the recorded value (who-writes + canonical forms); R-DOM/R-ORDER on the loop guards, the iteration caps and the finalised short-circuits; R-SIB on the criterion definitions; call-graph check that no likelihood evaluation is reachable before the finalised guard; ESS family rule; extended-precision rule (shift degree); same-return rule; path-signature comparison of the criterion definitions with a reference implementation"
 
 NS, INS = tables.NS, tables.INS
 
